@@ -124,6 +124,23 @@ func (b *byzActor) genHostile(h *Node, rs *cstypes.RoundState) *hostileMsg {
 		cl.c.Probe("hostile-recover-proposal-in-window")
 		return enc(fmt.Sprintf("proposal/recover/H=cur/R=%s/pol=%s/total=%s", rn, pn, tn), cs.DataChannel, &cs.ProposalMessage{Proposal: p}, true)
 	}
+	// at its own proposer turn the hostile validator can sign: a proposal that
+	// passes the signature check with an out-of-range part count
+	if rs.Proposal == nil && rs.Validators != nil && rs.Validators.GetProposer() != nil &&
+		string(rs.Validators.GetProposer().Address) == string(b.n.key.Address()) && t.Bool(1, 3) {
+		tot, tn := boundaryInt(t, 1)
+		pol, pn := -1, "-1"
+		if t.Bool(1, 4) {
+			pol, pn = boundaryInt(t, -1)
+		}
+		psh := types.PartSetHeader{Total: tot, Hash: t.Bytes(20)}
+		if p := b.signProposal(rs.Height, rs.Round, psh, pol, types.BlockID{}); p != nil {
+			cl.c.Probe("hostile-signed-proposal-at-own-turn")
+			// correctly signed by the legitimate proposer: it may be taken as the
+			// round's proposal, but it must not take the node down
+			return enc(fmt.Sprintf("proposal/signed-by-proposer/pol=%s/total=%s", pn, tn), cs.DataChannel, &cs.ProposalMessage{Proposal: p}, false)
+		}
+	}
 	switch kindPick {
 	case 0: // raw garbage
 		n := t.Range(0, 200)
@@ -225,7 +242,9 @@ func (b *byzActor) genHostile(h *Node, rs *cstypes.RoundState) *hostileMsg {
 				signed = "signed"
 				// a correctly signed, well-indexed vote of a real validator for this or the
 				// previous height is legitimate input whatever it votes for
-				valid = vi == idx && vs == size && (H == rs.Height || H+1 == rs.Height) && R >= 0 && (typ == types.VoteTypePrevote || typ == types.VoteTypePrecommit)
+				// (the next height too: the node may have moved on by the time the
+				// message is delivered, and the vote is then one for its current height)
+				valid = vi == idx && vs == size && (H == rs.Height || H+1 == rs.Height || H == rs.Height+1) && R >= 0 && (typ == types.VoteTypePrevote || typ == types.VoteTypePrecommit)
 			}
 		} else {
 			sig, _ := b.n.key.Priv.Sign([]byte("other"))
